@@ -1,7 +1,9 @@
 #!/bin/bash
 # ./run.sh <PROP> <quick|thorough>   |   ./run.sh replay <file>
 export GOFLAGS=-mod=mod GOPROXY=off GOSUMDB=off GOTOOLCHAIN=local
-cd /verif
+HERE=$(cd "$(dirname "$0")" && pwd)
+export VERIF_DIR=${VERIF_DIR:-$HERE}
+cd "$HERE"
 if [ ! -x sim/bin/simcheck ] || [ -n "$(find sim -name '*.go' -newer sim/bin/simcheck 2>/dev/null | head -1)" ]; then
   (cd sim && mkdir -p bin && go build -o bin/simcheck ./cmd/simcheck) || exit 2
 fi
